@@ -6,24 +6,24 @@ prop, sid = sys.argv[1], sys.argv[2]
 P = {json.loads(l)["id"]: json.loads(l) for l in open("/verif/properties.jsonl")}[prop]
 PREV = {
  "C01": "Tx.write's sync gated by len(tx.pages)>0; commitFreelist re-using the old freelist page ids in place; Commit growing the file before commitFreelist",
- "C02": "Tx.rollback using freelist.Init instead of NoSyncReload; Commit calling ReleasePendingPages a second time; Open not taking the shared flock for read-only handles",
+ "C02": "Tx.rollback using freelist.Init instead of NoSyncReload; Commit calling ReleasePendingPages a second time; Open not taking the shared flock for read-only handles; releaseRange compacting txPending.ids without alloctx (again)",
  "C03": "commitFreelist dropping tx.rollback(); Tx.rollback closing the tx before reloading the freelist; beginRWTx leaking rwlock on the ErrInvalidMapping exit",
- "C04": "Bucket.free replacing the InBucket header (sequence lost); nonPhysicalRollback skipping freelist.Rollback; MoveBucket's same-bucket test treating root page 0 as identity",
- "C05": "Cursor.prev using goToFirstElementOnTheStack at the front; Cursor.Seek dropping the flags of the hop to the next leaf; Cursor.keyValue truncating the element index to uint16 for materialised nodes",
- "C06": "Tx.rollback using freelist.Init; nonPhysicalRollback gating freelist.Rollback on a stats counter; hashMap.Allocate handing out a too-short span (size filter dropped)",
- "C07": "Tx.rollback gating the freelist reload on len(tx.pages)>0; Tx.write recomputing the chunk offset without '+ written'; DeleteBucket opening the doomed bucket from the committed value instead of the per-tx cache",
+ "C04": "Bucket.free replacing the InBucket header (sequence lost); nonPhysicalRollback skipping freelist.Rollback; MoveBucket's same-bucket test treating root page 0 as identity; rebalance unlink helper freeing a node before removing it from the node cache",
+ "C05": "Cursor.prev using goToFirstElementOnTheStack at the front; Cursor.Seek dropping the flags of the hop to the next leaf; Cursor.keyValue truncating the element index to uint16 for materialised nodes; Cursor.Seek fast path answering from the leaf the cursor is already on",
+ "C06": "Tx.rollback using freelist.Init; nonPhysicalRollback gating freelist.Rollback on a stats counter; hashMap.Allocate handing out a too-short span (size filter dropped); freepages() replaced by a home-made reachability walker (this idea was produced FIVE times: do not touch freepages)",
+ "C07": "Tx.rollback gating the freelist reload on len(tx.pages)>0; Tx.write recomputing the chunk offset without '+ written'; DeleteBucket opening the doomed bucket from the committed value instead of the per-tx cache; freepages() replaced by a home-made reachability walker (do not touch freepages)",
  "C08": "Tx.rollback gating the freelist reload; Commit using nonPhysicalRollback on a spill failure; commitFreelist swallowing its allocation error through a shadowed err",
- "C09": "hashMap.Init not resetting freePagesCount; shared.Read handing the page's own id slice to Init (aliasing); releaseRange compacting ids but not the parallel alloctx slice",
+ "C09": "hashMap.Init not resetting freePagesCount; shared.Read handing the page's own id slice to Init (aliasing); releaseRange compacting ids but not the parallel alloctx slice; hashMap.Allocate inserting the remainder span before deleting the original; RemoveReadonlyTXID via slices.DeleteFunc",
  "C10": "RemoveReadonlyTXID using sort.Search on a swap-deleted list; rollback/loadFreelist sharing a Read/Init helper; ReleasePendingPages moved from beginRWTx into the writer's close",
  "C11": "page size accepted on magic+version only (no checksum); db.allocate calling ReleasePendingPages and retrying when the size cap is hit; getPageSizeFromSecondMeta skipping candidate offsets that do not divide the file size",
  "C12": "WriteTo computing the checksum once before DecTxid; removing the unused Meta.flags field; DB.meta() trusting validity flags cached at mmap time",
  "C13": "Tx.rollback using Init instead of NoSyncReload; loadFreelist fast-path before the sync.Once; freepages() using a new lean page walker instead of the checker's walk",
- "C14": "WriteTo taking metas and length from db.meta(); rollback using Init/Read instead of NoSyncReload/Reload; WriteTo's deferred close registered before the fallback to the database's own handle",
- "C15": "CLI compact opening the source read-write; Bucket.inlineable consulting the per-tx bucket cache; Compact's callback deciding bucket-vs-value by len(v)==0",
+ "C14": "WriteTo taking metas and length from db.meta(); rollback using Init/Read instead of NoSyncReload/Reload; WriteTo's deferred close registered before the fallback to the database's own handle; Commit calling ReleasePendingPages a second time",
+ "C15": "CLI compact opening the source read-write; Bucket.inlineable consulting the per-tx bucket cache; Compact's callback deciding bucket-vs-value by len(v)==0; Bucket.spill skipping cached child buckets that are not 'dirty'",
  "C16": "sync.Once removed from batch (timer and size trigger both run); same in batch.trigger; batch.run skipping the rollback of a 'clean' failing function",
- "C17": "flock testing the deadline before the first attempt; Open setting db.opened only after mmap; DB.close unlocking only when closing the descriptor failed",
+ "C17": "flock testing the deadline before the first attempt; Open setting db.opened only after mmap; DB.close unlocking only when closing the descriptor failed; db.mmap's error rollback invalidating instead of unmapping (leaked mapping keeps the flock)",
  "C18": "Commit using nonPhysicalRollback on spill failure; commitFreelist not rolling back when its allocation fails; grow rounding the truncate size up to a page multiple after the MaxSize clamp",
- "C19": "verifyKeyOrder passing runningMin instead of the separator as the child's lower bound; IsBranchPage/IsLeafPage testing a bit instead of equality; verifyPageReachable testing only the head page for multiple references",
+ "C19": "verifyKeyOrder passing runningMin instead of the separator as the child's lower bound; IsBranchPage/IsLeafPage testing a bit instead of equality; verifyPageReachable testing only the head page for multiple references; shared.Read de-duplicating the freelist ids before Check sees them",
  "C20": "common.CopyFile copying only up to meta 0's high-water mark; WriteTo computing the checksum before DecTxid; freepages() looking nested buckets up in the wrong parent",
 }
 wt, out = f"/tmp/wt/{sid}", f"/tmp/seed/{sid}"
